@@ -16,7 +16,7 @@ def main():
     for i in ids:
         d = os.path.join(SEEDED, i)
         meta = json.load(open(os.path.join(d, "meta.json")))
-        props = [meta["property"]] + meta.get("also", [])
+        props = [meta["property"]] + ([] if os.environ.get("NO_ALSO") else meta.get("also", []))
         r = sh(f"git -C {REPO} apply {d}/patch.diff")
         if r.returncode != 0:
             results[i] = {"error": "patch does not apply: " + r.stderr[:200]}; continue
